@@ -83,7 +83,7 @@ def _build_model(cfg, build_seed):
     from plinio.methods import PIT, MPS, SuperNet
     torch.manual_seed(build_seed)
     spec = cfg['spec']
-    net = arch.SpecNet(spec)
+    net = arch.make_net(spec)
     if cfg.get('seed_in_eval'):
         net.eval()
     shape = tuple(spec['in_shape'])
@@ -93,7 +93,10 @@ def _build_model(cfg, build_seed):
     if 'exclude_types' in ctor:
         tmap = {'conv': (nn.Conv1d, nn.Conv2d), 'linear': (nn.Linear,)}
         ctor['exclude_types'] = tuple(t for k in ctor['exclude_types'] for t in tmap[k])
-    kw = {'input_example': torch.rand((1,) + shape)} if use_example else {'input_shape': shape}
+    if spec.get('n_inputs', 1) == 2:
+        kw = {'input_example': (torch.rand((1,) + shape), torch.rand((1,) + shape))}
+    else:
+        kw = {'input_example': torch.rand((1,) + shape)} if use_example else {'input_shape': shape}
     if cfg['method'] == 'pit':
         return PIT(net, cost=cs, **kw, **ctor)
     if cfg['method'] == 'mps':
@@ -175,7 +178,15 @@ def data_for(cfg, run_seed, idx):
     else:
         x = torch.randn(shape, generator=g)
     y = torch.randn((b, cfg['spec']['n_out']), generator=g)
+    if cfg['spec'].get('n_inputs', 1) == 2:
+        z = torch.rand(shape, generator=g) if cfg['method'] == 'mps' else torch.randn(shape, generator=g)
+        x = (x, z)
     return x, y
+
+
+def call_model(m, x):
+    """call a model on one input tensor or on a tuple of inputs"""
+    return m(*x) if isinstance(x, tuple) else m(x)
 
 
 def total_cost(model):
@@ -264,10 +275,10 @@ def leaf_layers(model):
 def run_forward(rep, x, abort_at=None):
     m = rep.model
     if abort_at is None:
-        return m(x), False
+        return call_model(m, x), False
     handles, count = _install_abort(m, abort_at)
     try:
-        out = m(x)
+        out = call_model(m, x)
         return out, False
     except SimAbort:
         return None, True
@@ -434,7 +445,7 @@ def apply_observer(rep, op):
         g.manual_seed(12345)
         x = torch.rand((2,) + tuple(rep.cfg['spec']['in_shape']), generator=g)
         with torch.no_grad():
-            guarded(lambda: e(x))
+            guarded(lambda: call_model(e, x))
         return {'export': 1}
     raise ValueError(k)
 
@@ -604,7 +615,7 @@ def full_probe(rep, run_seed, forward_first=True, tag='probe'):
         m.train() if mode == 'train' else m.eval()
         torch.manual_seed(s)
         with torch.no_grad():
-            return tensor_list(m(x))
+            return tensor_list(call_model(m, x))
     if not forward_first:
         obs['cost_before_forward'] = guarded(lambda: cost_values(m))
         obs['summary_before_forward'] = guarded(lambda: norm(m.summary()))
@@ -616,7 +627,7 @@ def full_probe(rep, run_seed, forward_first=True, tag='probe'):
     m.eval()
     torch.manual_seed(s)
     with torch.no_grad():
-        guarded(lambda: m(x))
+        guarded(lambda: call_model(m, x))
 
     def do_export():
         torch.manual_seed(s)
@@ -626,7 +637,7 @@ def full_probe(rep, run_seed, forward_first=True, tag='probe'):
                       for k, v in e.state_dict().items()}
         e.eval()
         with torch.no_grad():
-            o['out'] = guarded(lambda: tensor_list(e(x)))
+            o['out'] = guarded(lambda: tensor_list(call_model(e, x)))
         return o
     obs['export'] = guarded(do_export)
     m.train() if was_training else m.eval()
